@@ -108,6 +108,7 @@ func (m *mach[F, A]) apply(o op) (panicked string) {
 
 func (m *mach[F, A]) observe(k int, askHead bool) (o obs) {
 	o.Elems = []int{}
+	o.Fold = m.encF(m.m.Empty()) // a value of the right shape in case the observation panics before Fold
 	defer func() {
 		if r := recover(); r != nil {
 			o.Panic = fmt.Sprint(r)
@@ -239,6 +240,7 @@ func judge(m machine, o op, k int, got obs, emit func(reg int, pred string, want
 			pred = map[string]string{"new": "NewElements", "cons": "ConsElements", "tail": "TailElements"}[o.Op]
 		}
 		emit(k+1, pred, want, got.Elems)
+		return // Length / Head / Fold of a register whose elements are already wrong: one finding
 	}
 	if got.Len != len(want) {
 		emit(k+1, "Length", len(want), got.Len)
